@@ -101,9 +101,21 @@ def render_bib(keys):
                      for k in sorted(keys))
 
 
-def write_files(wd, F, pres, tag="v"):
-    """the definitions of force field F in the presentation pres (files in that order, definitions in that order); returns the paths"""
+_WRITTEN = {}
+
+
+def write_files(wd, F, pres, tag="v", reuse=None):
+    """the definitions of force field F in the presentation pres (files in that order, definitions in that order); returns the paths.
+    reuse: a key identifying F; the same presentation of the same force field is then written only once per process and directory"""
     wd = Path(wd)
+    if reuse is not None:
+        key = (str(wd), reuse, json.dumps([[f["syn"], f["defs"]] for f in pres], sort_keys=True))
+        if key in _WRITTEN:
+            return _WRITTEN[key]
+        tag = "ff%s_p%d" % (reuse, len(_WRITTEN))
+        paths = write_files(wd, F, pres, tag)
+        _WRITTEN[key] = paths
+        return paths
     paths = []
     for k, f in enumerate(pres):
         parts = []
@@ -251,13 +263,13 @@ def body(path):
 
 # --------------------------------------------------------------------------- running the real code
 
-def run_direct(case, F, var, wd, tag="v", name="t"):
+def run_direct(case, F, var, wd, tag="v", name="t", reuse_files=False):
     """load_ff_library on the rendered files + MetaMolecule (api: networkx graph, json: the sequence file reader) + MapToMolecule +
     ApplyLinks + ApplyModifications; returns the projection (or {"err": class})"""
     from polyply import MetaMolecule, MapToMolecule, ApplyLinks
     from polyply.src.apply_modifications import ApplyModifications
     from polyply.src.load_library import load_ff_library
-    paths = write_files(wd, F, var["files"], tag)
+    paths = write_files(wd, F, var["files"], tag, reuse=case.get("ff") if reuse_files else None)
     try:
         ff = load_ff_library(name, None, paths)
         if var["route"] == "json":
@@ -285,8 +297,9 @@ def run_gen_params(case, F, var, wd, tag="g", name="t", out=None):
     out = Path(out) if out else wd / ("%s_out.itp" % tag)
     if out.exists():
         out.unlink()
+    kw = {"mods": mods_arg(case)} if case["mods"] else {}
     try:
-        gi.gen_params(name=name, outpath=out, inpath=paths, lib=None, seq=None, seq_file=jp, mods=mods_arg(case))
+        gi.gen_params(name=name, outpath=out, inpath=paths, lib=None, seq=None, seq_file=jp, **kw)
     except Exception as exc:
         import traceback
         return {"err": err_class(exc), "msg": "%s: %s" % (type(exc).__name__, str(exc)[:200]), "tb": traceback.format_exc()[-1200:]}, None
@@ -338,7 +351,9 @@ def history_main(argv):
         before = out.read_text() if out.exists() else None
         sys.argv = ["polyply", "gen_params"] + [str(a) for a in run.get("argv", [])]
         kw = dict(name=run.get("name", "t"), outpath=out, inpath=[Path(p) for p in run["inpath"]], lib=run.get("lib"),
-                  seq=run.get("seq"), seq_file=Path(run["seq_file"]) if run.get("seq_file") else None, mods=run.get("mods", []))
+                  seq=run.get("seq"), seq_file=Path(run["seq_file"]) if run.get("seq_file") else None)
+        if run.get("mods"):        # otherwise the default of gen_params is used, as a caller without -mods does
+            kw["mods"] = run["mods"]
         try:
             gi.gen_params(**kw)
         except Exception as exc:
